@@ -16,6 +16,8 @@
 #include <csignal>
 #include <signal.h>
 #include <cstdio>
+#include <chrono>
+#include <clocale>
 #include <cstdlib>
 #include <cstdlib>
 #include <deque>
@@ -389,6 +391,12 @@ void do_term(std::ostream &out, world &w, toks &t)
         return;
     }
     auto &to = *w.terms.at(id);
+    if (op == "sleep")
+    {
+        // time passes between two things the application does
+        std::this_thread::sleep_for(std::chrono::milliseconds(t.num()));
+        return;
+    }
     if (op == "failnext")
     {
         // the channel's next write throws; the operation on the next line is the one
@@ -414,6 +422,20 @@ void do_term(std::ostream &out, world &w, toks &t)
     else if (op == "raw") { to.term << write_element(mk_elem(t)); }
     else if (op == "oda") { to.term << write_optional_default_attribute(); }
     else if (op == "str") { to.term << mk_string(t); }
+    else if (op == "cstr")
+    {
+        // term << "text": a C string streamed directly (whichever overload or
+        // conversion the library offers for it)
+        auto const b = unhex(t.str());
+        std::string const text(b.begin(), b.end());
+        to.term << text.c_str();
+    }
+    else if (op == "stdstr")
+    {
+        auto const b = unhex(t.str());
+        std::string const text(b.begin(), b.end());
+        to.term << text;
+    }
     else if (op == "move") { long a = t.num(), b = t.num(); to.term << move_cursor({coordinate_type(a), coordinate_type(b)}); }
     else if (op == "save") { to.term << save_cursor_position(); }
     else if (op == "restore") { to.term << restore_cursor_position(); }
@@ -981,6 +1003,11 @@ struct grouping_punct : std::numpunct<char>
 int main(int argc, char **argv)
 {
     std::string const mode = argc > 1 ? argv[1] : "run";
+    if (char const *cl = std::getenv("VERIF_HOST_CLOCALE"); cl != nullptr)
+    {
+        // a host program that calls setlocale(LC_ALL, "") under a UTF-8 locale
+        std::setlocale(LC_ALL, cl);
+    }
     if (std::getenv("VERIF_HOST_LOCALE") != nullptr)
     {
         std::locale::global(std::locale(std::locale::classic(), new grouping_punct));
